@@ -6,6 +6,8 @@ This file contains the main Program class for the CoCo Assembler.
 """
 # I M P O R T S ###############################################################
 
+from copy import copy
+
 from cocoasm.exceptions import TranslationError, ValueTypeError, OperandTypeError
 from cocoasm.statement import Statement
 from cocoasm.values import AddressValue, NoneValue
@@ -113,10 +115,10 @@ class Program(object):
         if not (value.is_symbol() or value.is_expression()):
             return
         try:
-            resolved = value.resolve(self.symbol_table)
+            resolved = copy(value).resolve(self.symbol_table)
         except (ValueError, ValueTypeError, ZeroDivisionError) as error:
             raise TranslationError(str(error), statement)
-        if resolved is None or not (resolved.is_numeric() or resolved.is_address()):
+        if resolved is None or not (resolved.is_numeric() or resolved.is_address() or resolved.is_address_expression()):
             raise TranslationError("[{}] is not a constant or a label".format(statement.operand.operand_string), statement)
         self.symbol_table[statement.label] = resolved
 
@@ -171,6 +173,8 @@ class Program(object):
         for symbol, value in self.symbol_table.items():
             if value.is_address():
                 self.symbol_table[symbol] = self.statements[value.int].code_pkg.address
+            if value.is_address_expression():
+                self.symbol_table[symbol] = value.calculate_address_offset(self.statements)
 
         # Find the origin and name of the project
         emitted = False
